@@ -61,6 +61,9 @@ def stats_by_name(coal, pops, sfs=True):
         out[f'th.demes[{p}].var'] = coal.tree_height.demes[p].var
     for p, q in itertools.product(pops, repeat=2):
         out[f'th.cov[{p},{q}]'] = coal.tree_height.demes.get_cov(p, q)
+    if not sfs:
+        out['loci.cov'] = np.array(coal.tree_height.loci.cov).tolist()
+        out['loci[0].mean'] = coal.tree_height.loci[0].mean
     if sfs:
         out['sfs.mean'] = coal.sfs.mean.data.tolist()
         for p in pops:
@@ -72,7 +75,8 @@ def oracle_naming(case):
     fails, n = [], 0
     spec = case['spec']
     pops = [p for p, _ in spec['n_items']]
-    base = stats_by_name(build.coalescent(spec), pops)
+    one_locus = spec.get('loci', 1) == 1
+    base = stats_by_name(build.coalescent(spec), pops, sfs=one_locus)
     variants = []
     for order in case['orders']:
         variants.append(('reordered', rename_spec(spec, {}, order), {p: p for p in pops}))
@@ -84,7 +88,7 @@ def oracle_naming(case):
         if len(s['n_items']) < len(spec['n_items']):
             variants.append(('unsampled population omitted', s, {p: p for p in pops}))
     for kind, s2, mapping in variants:
-        got = stats_by_name(build.coalescent(s2), [mapping[p] for p in pops])
+        got = stats_by_name(build.coalescent(s2), [mapping[p] for p in pops], sfs=one_locus)
         for k, v in base.items():
             k2 = k
             for p in pops:
